@@ -14,6 +14,9 @@ os.environ.setdefault('PYTHONDONTWRITEBYTECODE', '1')
 
 VERIF_DIR = os.path.dirname(os.path.dirname(os.path.abspath(__file__)))
 REPO = os.path.realpath(os.environ.get('VERIF_REPO', '/repo'))
+# where evidence/, replay/ and .shards/ are written: /verif itself, except for the mutation runs of
+# tools/seeded.py, which must not overwrite the evidence of the real tree
+OUT_DIR = os.environ.get('VERIF_OUT') or VERIF_DIR
 GUARD = 'SIGTOOLS_VERIF'        # reserved guard name (MANIFEST.hooks); no hook needs it
 
 
